@@ -10,7 +10,10 @@ acceptor of the executor protocol (model).
 `l:@e<channel>:<digest>` that the generated programs log are folded over the history with the register
 map of the reference semantics (`Verif.Model.ExecStore.Probe`): what a step reads of a channel at its
 start must be what the last committed step had in memory at its end (or what the previous step read, if
-nothing was committed since). -/
+nothing was committed since).
+
+op `memsweep …`: the traces of one transaction under memory limits crossed at each metering point; each
+trace is judged like a transaction step (a failed run with a register write is `write-in-failed-tx`). -/
 open Verif.Proto Verif.Model.Exec Verif.Model.ExecStore
 
 def hexNat (s : String) : Option Nat :=
@@ -142,6 +145,23 @@ def judge (op : List String) (go : String) : Verdict :=
             | .ok ts => let t := "-".intercalate ts; if acc.contains t then acc else t :: acc
             | _ => acc) []
           .ok ("!nt" :: (if compared > 0 then ["reads-compared"] else []) ++ tags.reverse)
+  | ["memsweep", engine, _ns, _setup, _src] =>
+    -- memory-limit sweep: every trace is one run of the same transaction under a memory limit crossed at
+    -- one metering call of the run (the commit's own metering included); each is judged as a transaction
+    if go == "panic" || go == "hang" then .violation "go-panic-or-hang" "the harness must not crash" [] else
+    if go == "setup-failed" || go == "clean-failed" || go == "no-metering" then .skip go else
+    let vs := (go.splitOn " | ").map (judgeStep .tx)
+    match vs.findSome? (fun v => match v with | .viol c s => some (c, s) | _ => none) with
+    | some (c, s) => .violation c s ["memsweep", engine]
+    | none =>
+      match vs.findSome? (fun v => match v with | .diff w => some w | _ => none) with
+      | some w => .modelDiff w ["memsweep", engine]
+      | none =>
+        match vs.findSome? (fun v => match v with | .skip w => some w | _ => none) with
+        | some w => .skip w
+        | none =>
+          let failed := (vs.filter (fun v => match v with | .ok ts => ts.contains "r-err" | _ => false)).length
+          .ok ["!nt", "memsweep", engine, s!"limits={vs.length}", if failed > 0 then "memory-limit-failures" else "no-failure"]
   | _ => .skip "unknown-op"
 
 def main : IO Unit := runDriver judge
